@@ -109,13 +109,17 @@ def units(tier, seed):
         us.append({"part": "order+hash", "family": f, "t": "datasource", "ctx": "host"})
     pool_fams = [f for f in fams if sum(len(SUB[c]) for c in f) <= (4 if tier == "quick" else 5)]
     for f in pool_fams:
+        n = sum(len(SUB[c]) for c in f)
         for size in b["pool_sizes"]:
+            if tier == "quick" and n >= 4 and size != 2:
+                continue            # quick: pool sizes 1 and 3 for the <= 3-node families only
             for shared in (False, True):
                 us.append({"part": "pool", "family": f, "t": "plain", "size": size, "shared": shared})
     for f in ((["one", "one"], ["chain2", "one"]) if tier == "quick" else (["one", "one"], ["chain2", "one"], ["one", "one", "one"])):
         for ctx in ("host", "archive", None):
             for shared in (False, True):
                 us.append({"part": "pool", "family": f, "t": "datasource", "ctx": ctx, "size": 2, "shared": shared})
+    us = _expand_pool_units(us, tier)
     for k, nodes in enumerate(evaluator_cases()):
         if tier == "quick" and len(nodes) > 4:
             continue            # three sub-graphs cost ~2 000 schedules per case: thorough only
@@ -123,6 +127,45 @@ def units(tier, seed):
     for k in range(4):
         us.append({"part": "seed", "chunk": k, "of": 4})
     return us
+
+
+def _pool_devs(unit, tier):
+    """(bound, [deviation vectors]) of one pool configuration."""
+    b = BOUNDS[tier]
+    nodes, comps = compose(unit["family"], unit["t"], unit.get("ctx"))
+    n = len(nodes)
+    alts = ["skip", "error", "seed"] if unit["t"] == "plain" else ["error", "cpe"]
+    maxdev = 1 if tier == "quick" else (1 if n >= 4 else 2)
+    if unit["size"] != 2 or (unit["t"] == "datasource" and tier == "quick"):
+        maxdev = 0
+    if tier == "quick" and not (unit["shared"] and unit["family"] in (["one", "one"], ["chain2", "one"], ["join", "one"])):
+        maxdev = 0              # quick: outcome deviations on three representative families with a shared broker
+    bound = b["preemptions"]
+    if tier == "thorough" and n > 3:
+        bound = 1               # bound 2 costs ~10^4-10^5 schedules per case: completed for the <= 3-node families
+    out = []
+    for devs in enumx.deviations(["value"] * n, [alts] * n, maxdev):
+        if bound == 2 and any(d != "value" for d in devs):
+            continue
+        if not unit["shared"] and "seed" in devs:
+            continue            # run_all creates the brokers itself when none is passed: nothing can be pre-seeded
+        out.append(devs)
+    return bound, out
+
+
+def _expand_pool_units(us, tier):
+    out = []
+    for u in us:
+        if u["part"] != "pool":
+            out.append(u)
+            continue
+        bound, devlist = _pool_devs(u, tier)
+        for devs in devlist:
+            v = dict(u)
+            v["devs"] = devs
+            v["bound"] = bound
+            out.append(v)
+    return out
 
 
 def unit_weight(u):
@@ -339,6 +382,25 @@ def target_codes():
     return _TARGETS
 
 
+_OP_TARGETS = None
+
+
+def opcode_codes():
+    """Bytecode-granularity points: every method of Broker plus the functions that read the broker as a whole."""
+    global _OP_TARGETS
+    if _OP_TARGETS is None:
+        import types
+        from insights.core import dr
+        codes = set()
+        for v in vars(dr.Broker).values():
+            if isinstance(v, types.FunctionType):
+                codes.add(v.__code__)
+        for f in (dr.ComponentType.get_missing_dependencies, dr.is_enabled):
+            codes.add(f.__code__)
+        _OP_TARGETS = codes
+    return _OP_TARGETS
+
+
 def registries_fingerprint():
     from insights.core import dr
     # dr.ENABLED is a defaultdict that is_enabled() fills while reading: a benign write, and is_enabled is a
@@ -353,7 +415,7 @@ def run_pool_once(case, prefix):
     from mc import sched as S
     g = G.Graph({"nodes": case["nodes"]}, name_tag="g")
     try:
-        s = S.Scheduler(prefix, target_codes(), pool_size=case["size"], max_points=50000)
+        s = S.Scheduler(prefix, target_codes(), pool_size=case["size"], max_points=200000, opcode_codes=opcode_codes())
         g.hook = lambda ev: s.point(ev[:2])
         b = make_broker(g, case) if case["shared"] else None
         graph = g.explicit_graph()
@@ -454,7 +516,7 @@ def run_evaluator_once(case, prefix):
     g = G.Graph({"nodes": case["nodes"]}, name_tag="g")
     saved = insights.get_pool
     try:
-        s = S.Scheduler(prefix, target_codes(), pool_size=case["size"], max_points=50000)
+        s = S.Scheduler(prefix, target_codes(), pool_size=case["size"], max_points=200000, opcode_codes=opcode_codes())
         g.hook = lambda ev: s.point(ev[:2])
 
         @contextlib.contextmanager
@@ -641,37 +703,24 @@ def run_unit(unit, tier):
         return res
     if part == "pool":
         nodes, comps = compose(unit["family"], unit["t"], unit.get("ctx"))
-        n = len(nodes)
-        alts = ["skip", "error", "seed"] if unit["t"] == "plain" else ["error", "cpe"]
-        maxdev = 1 if tier == "quick" else (1 if n >= 4 else 2)
-        cap = 4000 if tier == "quick" else 120000
-        if unit["size"] != 2 or (unit["t"] == "datasource" and tier == "quick"):
-            maxdev = 0              # deviations are explored with pool size 2; sizes 1 and 3 run the base case
-        bound = b["preemptions"]
-        if tier == "thorough" and n > 3:
-            bound = 1               # bound 2 costs ~10^4-10^5 schedules per case: completed for the <= 3-node families
-        for devs in enumx.deviations(["value"] * n, [alts] * n, maxdev if tier == "thorough" or n <= 3 else 0):
-            if bound == 2 and any(d != "value" for d in devs):
-                continue
-            if not unit["shared"] and "seed" in devs:
-                continue            # run_all creates the brokers itself when none is passed: nothing can be pre-seeded
-            case = {"kind": "pool", "family": unit["family"], "nodes": apply_devs(nodes, devs), "size": unit["size"],
-                    "shared": unit["shared"]}
-            if unit.get("ctx"):
-                case["ctx"] = unit["ctx"]
-            try:
-                vio, nexec, nout, ex = check_pool(case, bound, res, max_executions=cap)
-            except Exception:
-                import traceback
-                vio, nexec, nout = [("harness:raises", "no exception", traceback.format_exc()[-900:], None)], 0, 0
-            res.case(nontrivial=nexec >= 2, outcome="pool:%d" % nout, sample=case if res.evals % 5 == 1 else None)
-            res.stat("pool_schedules_executed", nexec)
-            for v in vio:
-                c = dict(case)
-                c["schedule"] = v[3]
-                res.violation(v[0], c, v[1], v[2],
-                              {"ctx": unit.get("ctx"), "t": unit["t"],
-                               "signal_in_worker_thread": "signal only works in main thread" in json.dumps(v[2])})
+        cap = 6000 if tier == "quick" else 150000
+        case = {"kind": "pool", "family": unit["family"], "nodes": apply_devs(nodes, unit["devs"]), "size": unit["size"],
+                "shared": unit["shared"]}
+        if unit.get("ctx"):
+            case["ctx"] = unit["ctx"]
+        try:
+            vio, nexec, nout, ex = check_pool(case, unit["bound"], res, max_executions=cap)
+        except Exception:
+            import traceback
+            vio, nexec, nout = [("harness:raises", "no exception", traceback.format_exc()[-900:], None)], 0, 0
+        res.case(nontrivial=nexec >= 2, outcome="pool:%d" % nout, sample=case if unit["size"] == 2 and unit["shared"] else None)
+        res.stat("pool_schedules_executed", nexec)
+        for v in vio:
+            c = dict(case)
+            c["schedule"] = v[3]
+            res.violation(v[0], c, v[1], v[2],
+                          {"ctx": unit.get("ctx"), "t": unit["t"],
+                           "signal_in_worker_thread": "signal only works in main thread" in json.dumps(v[2])})
         return res
     if part == "evaluator":
         nodes = evaluator_cases()[unit["index"]]
